@@ -90,4 +90,127 @@ mod c03pk {
     pk_case!(c03_pk_three_reversed, [3, 2, 0], [2, 1, 0, 1]);
     // four key columns, reversed
     pk_case!(c03_pk_four_reversed, [3, 2, 1, 0], [1, 1, 1, 1]);
+
+    // ---- the same obligation cut in two at the PartitionKey value (contract of `new` = assumption of the writer) ----
+    // (1) PartitionKey::new: slot s of the key holds the bound value of the marker that carries key component s, with
+    //     that marker's column spec - for the placement given. Nothing is hashed or written here.
+    fn new_case(marker_of_seq: &[u16], lens: [usize; MARKERS]) {
+        let npk = marker_of_seq.len();
+        let vals: [[u8; MAXLEN]; MARKERS] = kani::any();
+        let mut sv = SerializedValues::new();
+        let typ = std::mem::ManuallyDrop::new(ColumnType::Native(NativeType::Blob));
+        let typ: &ColumnType = &typ;
+        let mut m = 0;
+        while m < MARKERS {
+            assert!(std::mem::ManuallyDrop::new(sv.add_value(&&vals[m][..lens[m]], typ)).is_ok());
+            m += 1;
+        }
+        let mut pk_indexes: Vec<PartitionKeyIndex> = Vec::new();
+        let mut idx = 0u16;
+        while (idx as usize) < MARKERS {
+            let mut s = 0;
+            while s < npk {
+                if marker_of_seq[s] == idx {
+                    pk_indexes.push(PartitionKeyIndex { index: idx, sequence: s as u16 });
+                }
+                s += 1;
+            }
+            idx += 1;
+        }
+        let ts = TableSpec::borrowed("ks", "t");
+        let col_specs: Vec<ColumnSpec<'static>> = vec![
+            ColumnSpec::borrowed("c0", typ.clone(), ts.clone()), ColumnSpec::borrowed("c1", typ.clone(), ts.clone()),
+            ColumnSpec::borrowed("c2", typ.clone(), ts.clone()), ColumnSpec::borrowed("c3", typ.clone(), ts.clone()),
+        ];
+        let meta = std::mem::ManuallyDrop::new(PreparedMetadata { flags: 0, col_count: MARKERS, pk_indexes, col_specs });
+        let meta: &PreparedMetadata = &meta;
+        let pk = std::mem::ManuallyDrop::new(PartitionKey::new(meta, &sv));
+        let pk = match &*pk { Ok(p) => p, Err(_) => { assert!(false, "key extraction succeeds"); return; } };
+        assert!(pk.pk_values.len() == npk, "one slot per key component");
+        let mut s = 0;
+        while s < npk {
+            let mk = marker_of_seq[s] as usize;
+            match pk.pk_values[s] {
+                Some((v, spec)) => {
+                    assert!(v.len() == lens[mk], "slot s holds the value bound to the marker of key component s (length)");
+                    let mut i = 0;
+                    while i < lens[mk] {
+                        assert!(v[i] == vals[mk][i], "slot s holds the value bound to the marker of key component s (bytes)");
+                        i += 1;
+                    }
+                    assert!(std::ptr::eq(spec, &meta.col_specs[mk]), "slot s carries the column spec of that marker");
+                }
+                None => assert!(false, "every bound key component is present"),
+            }
+            s += 1;
+        }
+    }
+
+    macro_rules! pk_new_case {
+        ($name:ident, [$($m:expr),*], $lens:expr) => {
+            #[kani::proof]
+            #[kani::unwind(8)]
+            #[kani::stub(std::rt::thread_cleanup, noop)]
+            #[kani::stub(alloc::fmt::format, empty_string)]
+            fn $name() { new_case(&[$($m),*], $lens); }
+        };
+    }
+    pk_new_case!(c03_pk_new_two_in_order, [0, 2], [1, 2, 2, 0]);
+    pk_new_case!(c03_pk_new_two_swapped, [3, 1], [2, 1, 2, 1]);
+    pk_new_case!(c03_pk_new_three_rotated, [2, 0, 3], [1, 2, 2, 1]);
+    pk_new_case!(c03_pk_new_three_reversed, [3, 2, 0], [2, 1, 0, 1]);
+    pk_new_case!(c03_pk_new_four_reversed, [3, 2, 1, 0], [1, 1, 1, 1]);
+
+    // (2) write_encoded_partition_key on a PartitionKey as (1) leaves it: k present components (an absent one in between
+    //     is skipped), symbolic bytes, concrete lengths => the chunks handed to the hasher concatenate to
+    //     be16(len) ++ bytes ++ 0x00 per component in slot order.
+    struct Sink { out: [u8; 32], n: usize }
+    fn write_case<const K: usize>(lens: [usize; K], hole_after: Option<usize>) {
+        let vals: [[u8; 3]; K] = kani::any();
+        let typ = std::mem::ManuallyDrop::new(ColumnType::Native(NativeType::Blob));
+        let ts = TableSpec::borrowed("ks", "t");
+        let spec = std::mem::ManuallyDrop::new(ColumnSpec::borrowed("c", (*typ).clone(), ts));
+        let spec: &ColumnSpec = &spec;
+        let mut pk_values: SmallVec<[Option<PartitionKeyValue<'_>>; PartitionKey::SMALLVEC_ON_STACK_SIZE]> = SmallVec::new();
+        let mut s = 0;
+        while s < K {
+            pk_values.push(Some((&vals[s][..lens[s]], spec)));
+            if hole_after == Some(s) { pk_values.push(None); }
+            s += 1;
+        }
+        let pk = std::mem::ManuallyDrop::new(PartitionKey { pk_values });
+        let mut sink = Sink { out: [0u8; 32], n: 0 };
+        let w = std::mem::ManuallyDrop::new(pk.write_encoded_partition_key(&mut |chunk: &[u8]| {
+            let mut i = 0;
+            while i < chunk.len() { sink.out[sink.n] = chunk[i]; sink.n += 1; i += 1; }
+        }));
+        assert!(w.is_ok());
+        let mut at = 0;
+        let mut s = 0;
+        while s < K {
+            assert!(sink.out[at] == 0 && sink.out[at + 1] == lens[s] as u8, "component s starts with its big-endian u16 length");
+            let mut i = 0;
+            while i < lens[s] {
+                assert!(sink.out[at + 2 + i] == vals[s][i], "then its bytes");
+                i += 1;
+            }
+            assert!(sink.out[at + 2 + lens[s]] == 0, "then one zero byte");
+            at += 3 + lens[s];
+            s += 1;
+        }
+        assert!(sink.n == at, "nothing else is hashed");
+    }
+    macro_rules! pk_write_case {
+        ($name:ident, $k:expr, $lens:expr, $hole:expr) => {
+            #[kani::proof]
+            #[kani::unwind(8)]
+            #[kani::stub(std::rt::thread_cleanup, noop)]
+            #[kani::stub(alloc::fmt::format, empty_string)]
+            fn $name() { write_case::<$k>($lens, $hole); }
+        };
+    }
+    pk_write_case!(c03_pk_write_two, 2, [1, 2], None);
+    pk_write_case!(c03_pk_write_three, 3, [2, 0, 1], None);
+    pk_write_case!(c03_pk_write_three_hole, 3, [1, 3, 2], Some(0));
+    pk_write_case!(c03_pk_write_four, 4, [1, 1, 0, 3], None);
 }
